@@ -84,10 +84,50 @@ theorem C14_arm_covers_fields (name : Text) (fields : List AuthParam) (arm : Aut
   · simp at h
   · simp at h
 
-/-- `from_env` reads each credential of the first strategy from `<SERVICE>_<NAME>` in SCREAMING_SNAKE_CASE -/
-theorem C14_from_env_names (name : Text) (fields : List AuthParam) (rest : List AuthStrategy) (service : Text) :
-    (fromEnv (.token name fields :: rest) service).map (fun fe => fe.fields.map (·.envVar)) =
-      some (fields.map fun f => toScreamingSnake (service ++ [' '] ++ f.name)) := by
-  simp [fromEnv, qualifiedEnvVar, List.map_map, Function.comp]
+theorem zip_map_fst {α β γ : Type} (k : α → γ) : ∀ (fs : List α) (ids : List β), ids.length = fs.length →
+    (fs.zip ids).map (fun x => k x.1) = fs.map k
+  | [], _, _ => by simp
+  | f :: rest, [], h => by simp at h
+  | f :: rest, i :: is, h => by simp at h; simp [zip_map_fst k rest is h]
+
+theorem zip_map_snd {α β : Type} : ∀ (fs : List α) (ids : List β), ids.length = fs.length →
+    (fs.zip ids).map (fun x => x.2) = ids
+  | [], [], _ => by simp
+  | [], i :: is, h => by simp at h
+  | f :: rest, [], h => by simp at h
+  | f :: rest, i :: is, h => by simp at h; simp [zip_map_snd rest is h]
+
+theorem mapM'_length {α β ε : Type} (g : α → Except ε β) : ∀ (l : List α) (r : List β), mapM' g l = .ok r → r.length = l.length
+  | [], r, h => by simp [mapM'] at h; rw [h]; rfl
+  | a :: as, r, h => by
+    simp only [mapM'] at h
+    split at h
+    · rename_i b bs _ hbs; simp at h; rw [← h]; simp [mapM'_length g as bs hbs]
+    · simp at h
+    · simp at h
+
+/-- `from_env` reads each credential of the first strategy from `<SERVICE>_<NAME>` in
+SCREAMING_SNAKE_CASE, into the variant and fields the enum defines (the same sanitised names
+as `authenticate`) -/
+theorem C14_from_env_names (name : Text) (fields : List AuthParam) (rest : List AuthStrategy) (service : Text) (fe : FromEnv)
+    (arm : AuthArm) (ha : authArm (.token name fields) = .ok arm)
+    (h : fromEnv (.token name fields :: rest) service = .ok (some fe)) :
+    fe.variant = arm.variant ∧ fe.fields.map (·.field) = arm.fields ∧
+    fe.fields.map (·.envVar) = fields.map fun f => toScreamingSnake (service ++ [' '] ++ f.name) := by
+  simp only [fromEnv] at h
+  simp only [authArm] at ha
+  split at h
+  · rename_i v ids hv hids
+    rw [hv, hids] at ha
+    simp at h ha
+    have hl := mapM'_length _ _ _ hids
+    rw [← h, ← ha]
+    refine ⟨rfl, ?_, ?_⟩
+    · simp only [List.map_map]
+      exact zip_map_snd fields ids hl
+    · simp only [List.map_map, qualifiedEnvVar]
+      exact zip_map_fst (fun f => toScreamingSnake (service ++ [' '] ++ f.name)) fields ids hl
+  · simp at h
+  · simp at h
 
 end Ln
